@@ -54,6 +54,10 @@ Proof.
     cbn [app] in *. split; [exact B|].
     destruct (b_empty _ _ _ _ _ _ _ _ _ _ _ _ B Hempty) as (_ & _ & Hcore).
     unfold is_empty_core in Hcore. rewrite (b_pol _ _ _ _ _ _ _ _ _ _ _ _ B) in Hcore.
+    assert (Hcomp : q_complete q = true).
+    { pose proof HC as HC'. unfold CInter, CInterR in HC'. destruct HC' as (Ho & _).
+      rewrite Ho, zlen_zrange_nn in Hcore by lia. destruct (q_complete q); [reflexivity|]. cbn [orb] in Hcore. lia. }
+    clear Hcore. rename Hcomp into Hcore.
     destruct (CInter_done keep es Hwf _ _ B HC Hcore) as (Hct & Hk & Hrest).
     split; [exact Hct|]. split; [exact Hk|]. destruct keep; [exact Hrest|]. now apply counts_of_eq.
   - (* random *)
@@ -76,7 +80,10 @@ Proof.
     cbn [app] in *. split; [exact B|].
     destruct (b_empty _ _ _ _ _ _ _ _ _ _ _ _ B Hempty) as (_ & _ & Hcore).
     unfold is_empty_core in Hcore. rewrite (b_pol _ _ _ _ _ _ _ _ _ _ _ _ B) in Hcore.
-    apply (CBlocked_done es pm _ _ B HC Hcore).
+    assert (Hcomp : q_complete q = true).
+    { pose proof HC as HC'. unfold CBlocked, CBlockedR in HC'. destruct HC' as (Ho & _).
+      rewrite Ho, zlen_zrange_nn in Hcore by lia. destruct (q_complete q); [reflexivity|]. cbn [orb] in Hcore. lia. }
+    apply (CBlocked_done es pm _ _ B HC Hcomp).
   - (* grouped *)
     assert (Hgs : 1 <= gs) by (cbn in Hwp; lia).
     destruct (pops_inv (PGrouped gs) es Hwf (CGrouped es gs)
@@ -134,7 +141,7 @@ Proof.
   destruct (final_state _ _ _ _ _ _ _ _ Hwf Hpops Hempty) as (B & Hct & _).
   destruct (b_empty _ _ _ _ _ _ _ _ _ _ _ _ B Hempty) as (Hsrc & Hdl & Hcore).
   pose proof (b_paused _ _ _ _ _ _ _ _ _ _ _ _ B) as Hp.
-  apply (next_trial_empty all_rep) in Hcore.
+  apply (next_trial_empty all_rep eq_refl) in Hcore.
   exists (add_samples q n true). split; [|split; [|split]].
   - unfold pop_buffer.
     assert (Hf : exists f, pop_fuel q n = S f).
